@@ -334,7 +334,7 @@ func TestLifecycleHistoriesRapid(t *testing.T) {
 		nSteps := rapid.IntRange(3, vx.Pick(30, 45)).Draw(rt, "steps")
 		for i := 0; i < nSteps; i++ {
 			s := step{
-				kind:  rapid.SampledFrom([]string{"start", "start", "start", "stop", "editor-state", "editor-state", "editor-lock", "lc-state", "lc-state", "advance", "advance", "advance", "remove-owner", "deactivate-and-orphan", "lock-pending", "lock-pending"}).Draw(rt, "kind"),
+				kind:  rapid.SampledFrom([]string{"start", "start", "start", "stop", "editor-state", "editor-state", "editor-lock", "lc-state", "lc-state", "advance", "advance", "advance", "remove-owner", "deactivate-and-orphan", "lock-pending", "lock-pending", "orphan-own", "orphan-own"}).Draw(rt, "kind"),
 				who:   rapid.IntRange(0, nL-1).Draw(rt, "who"),
 				part:  int32(rapid.IntRange(0, 3).Draw(rt, "part")),
 				state: rapid.SampledFrom([]ring.PartitionState{ring.PartitionPending, ring.PartitionActive, ring.PartitionInactive, ring.PartitionDeleted, ring.PartitionUnknown}).Draw(rt, "state"),
@@ -350,6 +350,7 @@ func TestLifecycleHistoriesRapid(t *testing.T) {
 		var hist []string
 		nontrivial := false
 		lockedPending := 0
+		ownerless := 0
 		vx.Bubble(t, func(b *vx.B) {
 			t0 := time.Now()
 			store, closer := consul.NewInMemoryClient(ring.GetPartitionRingCodec(), log.NewNopLogger(), nil)
@@ -457,6 +458,33 @@ func TestLifecycleHistoriesRapid(t *testing.T) {
 						failure = fmt.Sprintf("step %d: lock flag not applied", si)
 						return
 					}
+				case "orphan-own":
+					// constructed: a running lifecycler loses its owner entry (removed by an operator or by another
+					// process), its partition is deactivated and stays so beyond the deletion delay: whoever
+					// deletes the partition, it is never its own lifecycler
+					if !running[s.who] || lcs[s.who].State() != services.Running {
+						break
+					}
+					pid := cfgs[s.who].part
+					_ = store.CAS(context.Background(), "pring", func(v interface{}) (interface{}, bool, error) {
+						d := ring.GetOrCreatePartitionRingDesc(clonePD(v))
+						changed := false
+						for id, o := range d.Owners {
+							if o.OwnedPartition == pid {
+								delete(d.Owners, id)
+								changed = true
+							}
+						}
+						return d, changed, nil
+					})
+					edRec.SetExplicit(true)
+					_ = editor.SetPartitionStateChangeLock(context.Background(), pid, false)
+					_ = editor.ChangePartitionState(context.Background(), pid, ring.PartitionInactive)
+					edRec.SetExplicit(false)
+					if pd, ok := current().Partitions[pid]; ok && pd.State == ring.PartitionInactive {
+						ownerless++
+					}
+					time.Sleep(delDelay + 2*time.Second)
 				case "lock-pending":
 					// constructed: lock a partition while it is still pending, then let its owners' reconcile
 					// ticks pass the promotion time
@@ -610,6 +638,10 @@ func TestLifecycleHistoriesRapid(t *testing.T) {
 			vx.Class("histories_with_a_pending_partition_locked", 1)
 			nontrivial = true
 		}
+		if ownerless > 0 {
+			vx.Class("histories_with_a_running_lifecycler_whose_partition_is_inactive_and_ownerless", 1)
+			nontrivial = true
+		}
 		if nontrivial {
 			vx.NonTrivial(vx.FP("hist", strings.Join(hist, ";"), waitOwners, waitDur, delDelay, fmt.Sprint(cfgs)))
 		}
@@ -686,100 +718,112 @@ func TestOwnerSetsRapid(t *testing.T) {
 			}
 			opName := rapid.SampledFrom([]string{"Write", "Read", "Reporting"}).Draw(rt, "op")
 			op := ops[opName]
-			healthy := func(in ring.InstanceDesc) bool {
-				return op.IsInstanceInStateHealthy(in.State) && now.Unix()-in.Timestamp <= 60
-			}
-			// oracle per partition
-			want := map[int32][]string{}
-			anyBad := false
-			for _, o := range owners {
-				if in, ok := insts[o.instID]; ok && healthy(in) {
-					want[o.part] = append(want[o.part], o.instID)
-				} else {
-					anyBad = true
-				}
-			}
-			vx.Eval(1)
-			if anyBad {
-				vx.NonTrivial(vx.FP("owners", fmt.Sprint(d.Owners), fmt.Sprint(insts), opName, multi))
-			}
-			if !multi {
-				pir := ring.NewPartitionInstanceRing(staticReader{pr}, insts, time.Minute)
-				sets, err := pir.GetReplicationSetsForOperation(op)
-				expectErr := false
-				for p := int32(0); p < int32(nP); p++ {
-					if len(want[p]) == 0 {
-						expectErr = true
+			// the same ring snapshot answers several times while the health of the instances changes:
+			// as drawn, then every owner known, active and fresh, then as drawn again
+			drawn := insts
+			for round := 0; round < 3; round++ {
+				insts = drawn
+				if round == 1 {
+					insts = fakeInstances{}
+					for _, o := range owners {
+						insts[o.instID] = ring.InstanceDesc{Id: o.instID, Addr: o.instID, Zone: strings.Split(o.instID, "-")[2], State: ring.ACTIVE, Timestamp: now.Unix()}
 					}
 				}
-				if expectErr != (err != nil) {
-					failure = fmt.Sprintf("GetReplicationSetsForOperation(%s): err=%v, want error=%v (healthy owners per partition %v)\nowners=%v\ninstances=%v", opName, err, expectErr, want, d.Owners, insts)
-					return
+				healthy := func(in ring.InstanceDesc) bool {
+					return op.IsInstanceInStateHealthy(in.State) && now.Unix()-in.Timestamp <= 60
 				}
-				if err == nil {
-					if len(sets) != nP {
-						failure = fmt.Sprintf("%d replication sets for %d partitions", len(sets), nP)
+				// oracle per partition
+				want := map[int32][]string{}
+				anyBad := false
+				for _, o := range owners {
+					if in, ok := insts[o.instID]; ok && healthy(in) {
+						want[o.part] = append(want[o.part], o.instID)
+					} else {
+						anyBad = true
+					}
+				}
+				vx.Eval(1)
+				if anyBad {
+					vx.NonTrivial(vx.FP("owners", fmt.Sprint(d.Owners), fmt.Sprint(insts), opName, multi))
+				}
+				if !multi {
+					pir := ring.NewPartitionInstanceRing(staticReader{pr}, insts, time.Minute)
+					sets, err := pir.GetReplicationSetsForOperation(op)
+					expectErr := false
+					for p := int32(0); p < int32(nP); p++ {
+						if len(want[p]) == 0 {
+							expectErr = true
+						}
+					}
+					if expectErr != (err != nil) {
+						failure = fmt.Sprintf("round %d on the same ring snapshot: GetReplicationSetsForOperation(%s): err=%v, want error=%v (healthy owners per partition %v)\nowners=%v\ninstances=%v", round, opName, err, expectErr, want, d.Owners, insts)
 						return
 					}
-					matched := map[int32]bool{}
-					for _, rs := range sets {
-						ids := rs.GetIDs()
-						sort.Strings(ids)
-						found := false
-						for p, w := range want {
-							ws := append([]string{}, w...)
-							sort.Strings(ws)
-							if !matched[p] && fmt.Sprint(ws) == fmt.Sprint(ids) {
-								matched[p], found = true, true
-								zones := map[string]bool{}
-								for _, in := range rs.Instances {
-									zones[in.Zone] = true
+					if err == nil {
+						if len(sets) != nP {
+							failure = fmt.Sprintf("%d replication sets for %d partitions", len(sets), nP)
+							return
+						}
+						matched := map[int32]bool{}
+						for _, rs := range sets {
+							ids := rs.GetIDs()
+							sort.Strings(ids)
+							found := false
+							for p, w := range want {
+								ws := append([]string{}, w...)
+								sort.Strings(ws)
+								if !matched[p] && fmt.Sprint(ws) == fmt.Sprint(ids) {
+									matched[p], found = true, true
+									zones := map[string]bool{}
+									for _, in := range rs.Instances {
+										zones[in.Zone] = true
+									}
+									if rs.MaxUnavailableZones != len(zones)-1 || !rs.ZoneAwarenessEnabled || rs.MaxErrors != 0 {
+										failure = fmt.Sprintf("partition %d: set %v has MaxUnavailableZones=%d MaxErrors=%d zoneAware=%v, want zones-1=%d (at least one answer required)", p, ids, rs.MaxUnavailableZones, rs.MaxErrors, rs.ZoneAwarenessEnabled, len(zones)-1)
+										return
+									}
+									break
 								}
-								if rs.MaxUnavailableZones != len(zones)-1 || !rs.ZoneAwarenessEnabled || rs.MaxErrors != 0 {
-									failure = fmt.Sprintf("partition %d: set %v has MaxUnavailableZones=%d MaxErrors=%d zoneAware=%v, want zones-1=%d (at least one answer required)", p, ids, rs.MaxUnavailableZones, rs.MaxErrors, rs.ZoneAwarenessEnabled, len(zones)-1)
-									return
-								}
-								break
+							}
+							if !found {
+								failure = fmt.Sprintf("round %d on the same ring snapshot: replication set %v is not the set of healthy owners of any partition (want %v)", round, ids, want)
+								return
 							}
 						}
-						if !found {
-							failure = fmt.Sprintf("replication set %v is not the set of healthy owners of any partition (want %v)", ids, want)
+					}
+				} else {
+					mr := ring.NewMultiPartitionInstanceRing(staticReader{pr}, insts, time.Minute)
+					for p := int32(0); p < int32(nP); p++ {
+						rs, err := mr.GetReplicationSetForPartitionAndOperation(p, op)
+						if (len(want[p]) == 0) != (err != nil) {
+							failure = fmt.Sprintf("multi: partition %d: err=%v, healthy owners %v", p, err, want[p])
 							return
 						}
-					}
-				}
-			} else {
-				mr := ring.NewMultiPartitionInstanceRing(staticReader{pr}, insts, time.Minute)
-				for p := int32(0); p < int32(nP); p++ {
-					rs, err := mr.GetReplicationSetForPartitionAndOperation(p, op)
-					if (len(want[p]) == 0) != (err != nil) {
-						failure = fmt.Sprintf("multi: partition %d: err=%v, healthy owners %v", p, err, want[p])
-						return
-					}
-					if err != nil {
-						continue
-					}
-					wz := map[string]bool{}
-					ws := map[string]bool{}
-					for _, id := range want[p] {
-						ws[id] = true
-						wz[insts[id].Zone] = true
-					}
-					gz := map[string]bool{}
-					for _, in := range rs.Instances {
-						if !ws[in.Id] {
-							failure = fmt.Sprintf("multi: partition %d: %s is not a healthy owner (%v)", p, in.Id, want[p])
+						if err != nil {
+							continue
+						}
+						wz := map[string]bool{}
+						ws := map[string]bool{}
+						for _, id := range want[p] {
+							ws[id] = true
+							wz[insts[id].Zone] = true
+						}
+						gz := map[string]bool{}
+						for _, in := range rs.Instances {
+							if !ws[in.Id] {
+								failure = fmt.Sprintf("multi: partition %d: %s is not a healthy owner (%v)", p, in.Id, want[p])
+								return
+							}
+							if gz[in.Zone] {
+								failure = fmt.Sprintf("multi: partition %d: two instances of zone %s", p, in.Zone)
+								return
+							}
+							gz[in.Zone] = true
+						}
+						if len(gz) != len(wz) || rs.MaxUnavailableZones != len(wz)-1 {
+							failure = fmt.Sprintf("multi: partition %d: zones %v of %v, MaxUnavailableZones=%d", p, gz, wz, rs.MaxUnavailableZones)
 							return
 						}
-						if gz[in.Zone] {
-							failure = fmt.Sprintf("multi: partition %d: two instances of zone %s", p, in.Zone)
-							return
-						}
-						gz[in.Zone] = true
-					}
-					if len(gz) != len(wz) || rs.MaxUnavailableZones != len(wz)-1 {
-						failure = fmt.Sprintf("multi: partition %d: zones %v of %v, MaxUnavailableZones=%d", p, gz, wz, rs.MaxUnavailableZones)
-						return
 					}
 				}
 			}
